@@ -235,7 +235,7 @@ func (u *Universe) fromDyn(ti *TypeInfo, dm protoreflect.Message, t byte) (*Val,
 		out.L = append(out.L, v)
 	}
 	if msg.Capture {
-		out.U = append([]byte{}, dm.GetUnknown()...)
+		out.U = canonUnknown(dm.GetUnknown())
 	}
 	return out, nil
 }
